@@ -1,10 +1,16 @@
 #!/bin/sh
-# usage: tools_try_seed.sh <patch.diff> <property>...   : apply a seeded change to /repo, run quick checks, undo
+# usage: tools_try_seed.sh <patch.diff> <property>...
+# applies a seeded change to a scratch worktree of /repo (so that /repo itself and any
+# background sweep reading it stay clean), runs the quick checks against it, removes it.
 patch="$1"; shift
-git -C /repo apply "$patch" || { echo "APPLY FAILED"; exit 3; }
+wt=$(mktemp -d /tmp/seedwt.XXXXXX)
+rmdir "$wt"
+git -C /repo worktree add -q "$wt" HEAD || exit 3
+git -C "$wt" apply "$patch" || { echo "APPLY FAILED"; git -C /repo worktree remove --force "$wt"; exit 3; }
 for p in "$@"; do
-  out=$(cd /verif && ./check "$p" --tier quick 2>&1)
-  echo "$out" | grep -E "^(VIOLATION|KNOWN-FINDING|INFRA)" | head -3
+  out=$(cd /verif && VERIF_REPO="$wt" ./check "$p" --tier quick 2>&1)
+  echo "$out" | grep -E "^(VIOLATION|INFRA)" | head -3
   echo "$out" | tail -1
 done
-git -C /repo checkout -- .
+git -C /repo worktree remove --force "$wt"
+# the generated facts are rewritten from /repo by the next ordinary run
